@@ -23,6 +23,7 @@ func init() {
 }
 
 func runC15(c *Ctx) {
+	c.envOptionsSetOnEveryCall()
 	c.rule("U1", "loading succeeds only through Validate(): every possibly-nil return of LoadFromEnvironment follows configurationToSet.Validate() and returns its (wrapped) result; Load/LoadFromViper delegate to it", 3)
 	c.rule("U2", "source order in LoadFromEnvironment: MergeConfigMap(defaults) → configuration file → linkFlagKeysToStructureKeys → Unmarshal → Validate", 4)
 	c.rule("U16", "the functions that turn the result of Validate() into a validation error answer nil only where the error they were given was found nil (a failed validation never becomes 'no error' on another ground)", 3)
